@@ -19,6 +19,9 @@ fn main() {
     eprintln!("usage: dgmc <C01..C20> [--tier quick|thorough] [--replay <file>] [--part <name>]");
     std::process::exit(2);
   }
+  if args[0] == "c16-probe" {
+    std::process::exit(props::c16::probe_main(&args[1]));
+  }
   if args[0] == "fc-probe" {
     // developer aid: print the fast-check output of a package given as files
     let ch = engine::Ch::new(vec![], false);
